@@ -43,7 +43,10 @@ RULE = ("L1 (differential CLI runs): regenerable scenarios (kind, seed) -> input
         "--ploidy, compare --ploidy, stats on the polyploid truth phasing. 'polyploid-ties': polyphase inputs built for exact ties (ploidy 3/4/5, 1-3 samples, 3-6 blocks of different sizes with the "
         "large block first, every read spanning the same number of variants, error-free, equal reads per haplotype, optionally "
         "a duplicated haplotype and identical read layouts per haplotype) compared across --threads 1,2,3,4,8, hash seeds and "
-        "an exact repetition, with and without --reference. 'input-forms': 4-8 short chromosomes, every VCF-reading subcommand (stats, compare, phase, genotype, polyphase, unphase, "
+        "an exact repetition, with and without --reference. 'polyploid-prephasing': polyphase --use-prephasing on 2-3 samples of which some are pre-phased and some unphased, "
+        "two read groups sharing one SNV (ambiguous joint), 1-2 chromosomes, sample names from a pool; besides the usual "
+        "configurations the hash seeds are chosen so that >= 2 (up to 3) different iteration orders of the set of sample names "
+        "occur (computed with the same interpreter). 'input-forms': 4-8 short chromosomes, every VCF-reading subcommand (stats, compare, phase, genotype, polyphase, unphase, "
         "haplotag, haplotagphase) on plain / bgzip+tbi / bgzip+csi VCFs, BAM and CRAM alignments (and CRAM output), VCF on "
         "stdin, vcf.gz outputs, with multi-name --chromosome / --regions selections sorted, reversed, shuffled and with a "
         "repeated name. 'misc': find_snv_candidates (3 option sets), hapcut2vcf, "
@@ -105,6 +108,27 @@ SLOW = []
 
 
 # ============================================================================ differential CLI runs
+_ORDER_SEEDS = {}
+
+
+def seeds_for_orders(names, want=3, tries=60):
+    """hash seeds under which a frozenset of `names` (built from the list in this order, as whatshap does from the
+    VCF sample columns) iterates in DIFFERENT orders; one seed per distinct order, as many orders as found"""
+    import subprocess
+    key = tuple(names)
+    if key not in _ORDER_SEEDS:
+        found = {}
+        for seed in range(tries):
+            env = dict(os.environ, PYTHONHASHSEED=str(seed))
+            r = subprocess.run([util.PY, "-c", "print(','.join(frozenset(%r)))" % (list(names),)], env=env,
+                               stdout=subprocess.PIPE, text=True)
+            found.setdefault(r.stdout.strip(), str(seed))
+            if len(found) >= want:
+                break
+        _ORDER_SEEDS[key] = found
+    return _ORDER_SEEDS[key]
+
+
 def job_configs(job, n_extra=0, short=False):
     """configurations for one job: baseline first, one exact repetition of the baseline last"""
     seeds = ["0", "1", "2", "random", "3"]
@@ -122,6 +146,13 @@ def job_configs(job, n_extra=0, short=False):
         c = dict(cfgs[(k + 1) % len(cfgs)])
         c["hashseed"] = seeds[(k + 4) % len(seeds)]
         cfgs.append(c)
+    if job.feat.get("order_names"):
+        # make sure that several iteration orders of the set of sample names really occur among the runs
+        for order, seed in seeds_for_orders(job.feat["order_names"]).items():
+            if seed not in [c["hashseed"] for c in cfgs if c.get("threads", 1) == 1]:
+                c = dict(cfgs[0])
+                c["hashseed"] = seed
+                cfgs.append(c)
     cfgs.append(dict(cfgs[0]))          # exact repetition
     for _ in range(job.feat.get("repeats", 0)):
         cfgs.append(dict(cfgs[0]))      # rare run-to-run differences need many identical runs
@@ -200,6 +231,13 @@ def tally_job(ctx, label, job, cfgs):
     for k in ("form", "nchrom_selected", "nregions"):
         if k in job.feat:
             ctx.tally(f"{label}.{k}.{job.sub}.{job.feat[k]}")
+    if job.feat.get("order_names"):
+        orders = seeds_for_orders(job.feat["order_names"])
+        used = {c["hashseed"] for c in cfgs}
+        ctx.tally(f"{label}.sample_set_orders_exercised={sum(1 for sd in orders.values() if sd in used)}")
+    for k in ("prephased_samples", "unphased_samples"):
+        if k in job.feat:
+            ctx.tally(f"{label}.prephasing.{k}={job.feat[k]}")
     for k in ("blocks", "block_sizes", "duplicated_haplotype"):
         if k in job.feat:
             ctx.tally(f"{label}.ties.{k}={job.feat[k]}")
@@ -300,6 +338,13 @@ def scenario_plan(ctx, rng):
                    "reads_per_hap": [max(8, 4 * n // 3) for n in sizes], "duplicate": rng.random() < 0.6,
                    "shared_starts": rng.random() < 0.5, "readlen": rng.choice([3, 4, 4, 5]), "b_sweep": rng.random() < 0.5}
         plan.append(("polyploid-ties", rng.randrange(10 ** 9), prm))
+    # polyphase --use-prephasing with pre-phased AND unphased samples in one run, ambiguous joints
+    for k in range(ctx.n(2, 6)):
+        ns = 2 if k == 0 else rng.choice([2, 3, 3])
+        pre = [1] if k == 0 else sorted(rng.sample(range(ns), rng.randint(1, ns - 1)))
+        plan.append(("polyploid-prephasing", rng.randrange(10 ** 9),
+                     {"ploidy": 4 if k < 2 else rng.choice([3, 4]), "nsamples": ns, "prephased_idx": pre,
+                      "nchrom": 1 if k == 0 else rng.choice([1, 2]), "nvars": 10 if k == 0 else rng.choice([8, 10, 12])}))
     for k in range(ctx.n(1, 3)):
         plan.append(("input-forms", rng.randrange(10 ** 9), {"nchrom": 6 if k == 0 else rng.choice([4, 6, 8])}))
     for k in range(ctx.n(1, 4)):
